@@ -125,6 +125,9 @@ func v14Build(r *verifrt.R, c *verifrt.Case, mode, flavor string) *v14Session {
 				}
 			}
 			e := v14GenExch(rng, cf, idx, wi, flavor, mb, perEx, &common)
+			if flavor == "frame-boundary" {
+				v14Boundary(e, cf, int(c.Index%4))
+			}
 			total += e.ReqBody.Len + e.RespBody.Len
 			s.ex = append(s.ex, e)
 			idx++
@@ -716,6 +719,7 @@ func TestVerif_C14(t *testing.T) {
 	r.CasesParallel("bubble-tiny-window", r.N(60, 40), 0, run("bubble", "tiny-window"))
 	r.CasesParallel("bubble-near-limit", r.N(60, 40), 0, run("bubble", "near-limit"))
 	r.CasesParallel("bubble-early", r.N(60, 40), 0, run("bubble", "early"))
+	r.CasesParallel("bubble-frame-boundary", r.N(8, 16), 0, run("bubble", "frame-boundary"))
 	r.CasesParallel("realtime", r.N(160, 120), runtime.GOMAXPROCS(0), run("realtime", "general"))
 	r.CasesParallel("realtime-tiny-window", r.N(40, 30), runtime.GOMAXPROCS(0), run("realtime", "tiny-window"))
 
@@ -729,5 +733,7 @@ func TestVerif_C14(t *testing.T) {
 	r.Require("sessions_bubble", 100)
 	r.Require("sessions_realtime", 50)
 	r.Require("near_limit_header_sets_req", 5)
+	r.Require("header_blocks_of_exactly_a_multiple_of_16384_octets_c2s", 2)
+	r.Require("header_blocks_of_exactly_a_multiple_of_16384_octets_s2c", 2)
 	r.Require("near_limit_header_sets_resp", 5)
 }
